@@ -69,7 +69,8 @@ pub fn apply_bmuts(mut b: Vec<u8>, muts: &[BMut]) -> Vec<u8> {
     b
 }
 
-pub fn bmut() -> impl Strategy<Value = BMut> {
+pub fn bmut() -> BoxedStrategy<BMut> {
+    let inner = (|| {
     let interesting8 = prop::sample::select(vec![0u8, 1, 2, 3, 4, 7, 8, 0x20, 0x7f, 0x80, 0xc0, 0xfe, 0xff, b'\r', b'\n', b' ', b':']);
     let interesting16 = prop::sample::select(vec![0u16, 1, 2, 3, 4, 5, 7, 8, 12, 20, 24, 28, 0x7fff, 0x8000, 0xfffe, 0xffff, 0x0100, 0x00ff]);
     let interesting32 = prop::sample::select(vec![0u32, 1, 4, 8, 0x7fffffff, 0x80000000, 0xffffffff, 0xfffffffe, 0x00010000, 0x01000000]);
@@ -82,6 +83,8 @@ pub fn bmut() -> impl Strategy<Value = BMut> {
         1 => (any::<u16>(), vec(any::<u8>(), 1..12)).prop_map(|(p, v)| BMut::Insert(p, Hex(v))),
         1 => (any::<u16>(), 1u8..8).prop_map(|(p, n)| BMut::Delete(p, n)),
     ]
+})();
+    inner.boxed()
 }
 
 /// hostile STUN: header + TLV list with lying lengths
@@ -133,7 +136,8 @@ impl HostileStun {
     }
 }
 
-pub fn hostile_stun() -> impl Strategy<Value = HostileStun> {
+pub fn hostile_stun() -> BoxedStrategy<HostileStun> {
+    let inner = (|| {
     (
         prop_oneof![4 => Just(1u16), 1 => any::<u16>()],
         any::<bool>(),
@@ -170,6 +174,8 @@ pub fn hostile_stun() -> impl Strategy<Value = HostileStun> {
                 .collect(),
             len_delta,
         })
+})();
+    inner.boxed()
 }
 
 #[derive(Clone, Debug, Serialize, Deserialize, PartialEq, Hash)]
@@ -199,13 +205,16 @@ impl Pay {
     }
 }
 
-pub fn pay() -> impl Strategy<Value = Pay> {
+pub fn pay() -> BoxedStrategy<Pay> {
+    let inner = (|| {
     prop_oneof![
         3 => app_req().prop_map(Pay::App),
         5 => (app_req(), vec(bmut(), 1..4)).prop_map(|(a, m)| Pay::Mutated(a, m)),
         2 => hostile_stun().prop_map(Pay::Stun),
         1 => vec(any::<u8>(), 0..120).prop_map(|v| Pay::Bytes(Hex(v))),
     ]
+})();
+    inner.boxed()
 }
 
 #[derive(Clone, Debug, Serialize, Deserialize, PartialEq, Hash)]
